@@ -117,6 +117,10 @@ type sys struct {
 	replica map[string]repEntry
 	rev     int64
 	loaded  bool
+	// rejected loads since the last accepted one, by (validity, revision
+	// relation): part of the canonical state, because an implementation may
+	// remember a rejected load (hidden state that Current() does not show)
+	rejected map[string]bool
 }
 
 func newSys(ops []loadOp, withBase bool) *sys {
@@ -175,6 +179,15 @@ func (s *sys) Apply(i int) []seqmc.Violation {
 	}
 	after := s.c.Current()
 	if err != nil {
+		if s.rejected == nil {
+			s.rejected = map[string]bool{}
+		}
+		// quick tier: only a rejected INVALID load at a strictly greater
+		// revision is remembered (the only kind a later valid load at the same
+		// revision can collide with); thorough: every (validity, relation) class
+		if fullMemory || (!valid(cfg) && cfg != nil && o.rev > 0) {
+			s.rejected[fmt.Sprintf("valid=%v rev%+d", valid(cfg), o.rev)] = true
+		}
 		if !proto.Equal(before, after) {
 			return vio("rejected-load-changed-state", "rejected Load(%s) changed Current()", o.name)
 		}
@@ -245,6 +258,7 @@ func (s *sys) Apply(i int) []seqmc.Violation {
 	}
 	s.rev = cfg.Revision
 	s.loaded = true
+	s.rejected = nil
 	return nil
 }
 
@@ -262,7 +276,12 @@ func keys(m map[string]repEntry) []string {
 func (s *sys) Key() string {
 	c := s.c.Current()
 	if c == nil {
-		return "nil"
+		var rj []string
+		for k := range s.rejected {
+			rj = append(rj, k)
+		}
+		sort.Strings(rj)
+		return fmt.Sprintf("nil|%v", rj)
 	}
 	c.Revision = 0
 	b, _ := proto.MarshalOptions{Deterministic: true}.Marshal(c)
@@ -272,14 +291,22 @@ func (s *sys) Key() string {
 		rb, _ := proto.MarshalOptions{Deterministic: true}.Marshal(s.replica[n].req)
 		r = append(r, fmt.Sprintf("%s=%x/%x", n, tb, rb))
 	}
-	return fmt.Sprintf("%x|%s|%v", b, strings.Join(r, ","), s.loaded)
+	var rj []string
+	for k := range s.rejected {
+		rj = append(rj, k)
+	}
+	sort.Strings(rj)
+	return fmt.Sprintf("%x|%s|%v|%v", b, strings.Join(r, ","), s.loaded, rj)
 }
+
+var fullMemory bool
 
 type harness struct{}
 
 func (harness) Property() string { return "C17" }
 func (harness) Specs(tier string) []seqmc.Spec {
-	ops := universe(tier == "thorough")
+	fullMemory = tier == "thorough"
+	ops := universe(false)
 	var names []string
 	for _, o := range ops {
 		names = append(names, o.name)
